@@ -1475,7 +1475,16 @@ def c_extract(family, op, params, ins, k, P=csmt.P_BLS):
     p = subprocess.run([AXBIN] + cengine.cx_args(family, op, params, ins, k), capture_output=True, text=True)
     if p.returncode != 0 or not p.stdout.strip():
         raise cengine.ExtractError(f"ax failed for {family}/{op} {cengine.pstr(params)} in={ins}: {p.stderr[-1200:]}")
-    return csmt.System(json.loads(p.stdout), P)
+    d = json.loads(p.stdout)
+    # a gate row  c*x - c*y = 0  is an equality of two cells: treat it like a copy constraint (the row is
+    # kept as well), so that range facts proven on one cell are static facts of the other
+    for g in d["gates"]:
+        poly = g["poly"]
+        if len(poly) == 2 and all(len(cells) == 1 for _, cells in poly):
+            (c1, (x,)), (c2, (y,)) = poly
+            if (int(c1, 16) + int(c2, 16)) % P == 0 and x != y and x[0] in "ai" and y[0] in "ai":
+                d["copies"].append([x, y])
+    return csmt.System(d, P)
 
 
 def c_replay(family, op, params, ins, k, overrides):
@@ -1561,9 +1570,200 @@ class B64Enc(csmt.Enc):
         self.set_bound(x1, 4096)
 
 
-def c_decide(run, ob, family, op, params, ins, spec, k=10, timeout=60, enc_cls=csmt.Enc, P=csmt.P_BLS, twin=True):
+class PresetEnc(csmt.Enc):
+    """csmt.Enc with static range facts fixed in advance (class -> exclusive upper bound). Every preset
+    was proven by `discover_bounds` from a SUBSET of the system's own constraints, so asserting it does
+    not strengthen the system; it lets the encoder treat products of small operands exactly."""
+    preset = None
+
+    def constraint(self, poly, monomial_mode=False):
+        """a degree-2 row whose every product contains one and the same Boolean atom b (b < 2 is a static
+        fact) is the disjunction of two LINEAR rows, b = 0 and b = 1: exact, and free of product terms."""
+        P = self.P
+        const, lin, quad, high = self.split_poly(poly)
+        if quad and not high:
+            cands = [x for x in {q[1] for q in quad} | {q[2] for q in quad} if not isinstance(x, int) and self.bound(x) <= 2
+                     and all(x in (a, b) for _, a, b in quad)]
+            if cands:
+                b = sorted(cands)[0]
+                lin0 = {n: c for n, c in lin.items() if n != b}
+                lin1 = dict(lin0)
+                const1 = (const + lin.get(b, 0)) % P
+                for k, x, y in quad:
+                    o = y if x == b else x
+                    if o == b:
+                        const1 = (const1 + k) % P
+                    else:
+                        lin1[o] = (lin1.get(o, 0) + k) % P
+                f0 = self.modeq([(csmt.sym(c, P), n) for n, c in sorted(lin0.items()) if c % P], csmt.sym(const, P), as_bool=True)
+                f1 = self.modeq([(csmt.sym(c, P), n) for n, c in sorted(lin1.items()) if c % P], csmt.sym(const1, P), as_bool=True)
+                self.lines.append(f"(assert (ite (= {b} 0) {f0} {f1}))")
+                return
+        return super().constraint(poly, monomial_mode)
+
+    def v(self, cell):
+        r = self.s.cls(cell)
+        known = r in self.vars
+        n = super().v(cell)
+        if not known and not isinstance(n, int) and self.preset and r in self.preset:
+            B = self.preset[r]
+            if B < self.ub.get(n, self.P):
+                self.lines.append(f"(assert (< {n} {B}))")
+                self.set_bound(n, B)
+        return n
+
+
+def _constraint_classes(system):
+    """[(key, set of non-constant classes)] for every gate row and lookup row."""
+    out = []
+    for g in system.d["gates"]:
+        cl = {system.cls(c) for _, cells in g["poly"] for c in cells}
+        out.append((("gate", g["gate"], g["row"]), {c for c in cl if c not in system.const}))
+    for lk in system.d["lookups"]:
+        for inp in lk["inputs"]:
+            cl = {system.cls(c) for p in inp["exprs"] for _, cells in p for c in cells}
+            out.append((("lookup", lk["name"], inp["row"]), {c for c in cl if c not in system.const}))
+    return out
+
+
+def discover_bounds(system, enc_cls, candidates=(2, 256, 4096, 65536), timeout=20, rounds=4, log=None):
+    """Static range facts by local lemmas: for a class v without a small static bound, the constraints
+    that mention v or a class sharing a constraint with v (a subset of the system) are encoded alone and
+    the solver is asked whether they force v < B. unsat => the bound is recorded and used (as an asserted
+    fact and as a static bound) by later lemmas and by the main encoding. Sound: every lemma is a
+    consequence of a subset of the system."""
+    cons = _constraint_classes(system)
+    allkeys = {k for k, _ in cons}
+    preset = {}
+    queries = 0
+    for rnd in range(rounds):
+        # static bounds the encoder derives by itself with the current presets
+        class E(enc_cls, PresetEnc):
+            pass
+        E.preset = dict(preset)
+        e0 = E(system)
+        try:
+            e0.encode(False)
+        except NotImplementedError:
+            pass
+        have = {}
+        for cls, name in e0.vars.items():
+            have[cls] = e0.ub.get(name, system.P)
+        todo = [c for c in sorted(system.used_classes()) if have.get(c, system.P) > max(candidates) and c not in system.const]
+        progress = False
+        for v in todo:
+            near = set()
+            for k, cl in cons:
+                if v in cl:
+                    near |= cl
+            keep = {k for k, cl in cons if v in cl or (cl and cl <= near)}
+            drop = allkeys - keep
+            for B in candidates:
+                E.preset = dict(preset)
+                e = E(system, drop=drop)
+                try:
+                    e.encode(False)
+                except NotImplementedError:
+                    break
+                if v not in e.vars:
+                    break
+                n = e.vars[v]
+                r = solvers.solve(e.text([f"(assert (>= {n} {B}))"]), timeout=timeout)
+                queries += 1
+                if r.status == "unsat":
+                    preset[v] = B
+                    progress = True
+                    break
+                if r.status != "sat":
+                    break
+        if log:
+            log(f"range discovery round {rnd}: {len(preset)} facts, {queries} local queries")
+        if not progress:
+            break
+    return preset, queries
+
+
+def discover_hints(system, enc_cls, preset, timeout=20):
+    """Hint elimination by local lemmas. A gate row that contains a class p occurring nowhere else (a
+    prover hint such as the inverse in an is-zero test), one Boolean class v (proven by discover_bounds)
+    and one small class x: with K = the constraints over {p, v, x} only, ask the solver for the value c
+    of x in a model of K with v = 1, then prove  K => (v = 1 <=> x = c).  When that is unsat the row is
+    dropped from the main encoding and replaced by the lemma  v = ite(x = c, 1, 0).  Sound: the system
+    implies the lemma, and dropping a row only weakens the system.
+    -> (drop keys, lemma lines as functions of an encoder, repair list, number of queries)"""
+    cons = _constraint_classes(system)
+    count = {}
+    for _, cl in cons:
+        for c in cl:
+            count[c] = count.get(c, 0) + 1
+    io = {system.cls(c) for c in system.ins + system.outs}
+
+    class E(enc_cls, PresetEnc):
+        pass
+    E.preset = dict(preset)
+    drops, lemmas, repairs, queries = set(), [], [], 0
+    allkeys = {k for k, _ in cons}
+    gates = {("gate", g["gate"], g["row"]): g for g in system.d["gates"]}
+    for key, cl in cons:
+        if key[0] != "gate":
+            continue
+        priv = [c for c in cl if count[c] == 1 and c not in io and c not in preset and c not in system.const]
+        if len(priv) != 1:
+            continue
+        p = priv[0]
+        others = [c for c in cl if c != p and c not in system.const]
+        bools = [c for c in others if preset.get(c) == 2]
+        if len(bools) != 1 or len(others) != 2:
+            continue
+        v = bools[0]
+        x = [c for c in others if c != v][0]
+        keep = {k for k, c2 in cons if c2 and c2 <= cl}
+        e = E(system, drop=allkeys - keep)
+        try:
+            e.encode(False)
+        except NotImplementedError:
+            continue
+        if v not in e.vars or x not in e.vars:
+            continue
+        nv, nx = e.vars[v], e.vars[x]
+        if e.ub.get(nx, system.P) > 65536:
+            continue
+        r = solvers.solve(e.text([f"(assert (= {nv} 1))"]), timeout=timeout, get_values=[nx])
+        queries += 1
+        if r.status != "sat" or nx not in r.model:
+            continue
+        c0 = r.model[nx]
+        r = solvers.solve(e.text([f"(assert (not (= {nv} (ite (= {nx} {c0}) 1 0))))"]), timeout=timeout)
+        queries += 1
+        if r.status != "unsat":
+            continue
+        drops.add(key)
+        lemmas.append((v, x, c0))
+        repairs.append((gates[key], p))
+    return drops, lemmas, repairs, queries
+
+
+def repair_hints(system, repairs, cls_assign):
+    """values of the eliminated hint classes that make their (dropped) rows hold: each row is affine in
+    its hint."""
+    P = system.P
+    for g, p in repairs:
+        a0 = dict(cls_assign)
+        a0[p] = 0
+        B = system.eval_poly(g["poly"], a0)
+        a0[p] = 1
+        A1 = (system.eval_poly(g["poly"], a0) - B) % P
+        if A1 == 0:
+            cls_assign[p] = 0
+        else:
+            cls_assign[p] = (-B * pow(A1, P - 2, P)) % P
+    return cls_assign
+
+
+def c_decide(run, ob, family, op, params, ins, spec, k=10, timeout=60, enc_cls=csmt.Enc, P=csmt.P_BLS, twin=True, discover=False, label=None):
     """`forall assignment. Sys => Spec` for one circuit extracted by `ax` (mirrors cengine.decide).
-    spec(e, I, O, system) -> SMT Bool."""
+    spec(e, I, O, system) -> SMT Bool. discover: static range facts and hint elimination by local
+    solver lemmas first (discover_bounds / discover_hints)."""
     try:
         system = c_extract(family, op, params, ins, k, P)
     except cengine.ExtractError as ex:
@@ -1580,10 +1780,30 @@ def c_decide(run, ob, family, op, params, ins, spec, k=10, timeout=60, enc_cls=c
     if not d["honest_verify"]:
         ob.key = ob.key + ":honest-rejected"
         path = run.write_replay(ob, dict(kind="c19-honest-rejected", ax=cx))
-        return ob.set(VIOLATION, f"real MockProver rejects the honest witness of {op} {cengine.pstr(params)} on admissible inputs {ins}", replay=path)
-    e = enc_cls(system)
+        return ob.set(VIOLATION, f"real MockProver rejects the honest witness of {op} {label or cengine.pstr(params)} on admissible inputs {ins}", replay=path)
+    repairs = []
+    if discover:
+        preset, nq = discover_bounds(system, enc_cls)
+        drops, lemmas, repairs, nq2 = discover_hints(system, enc_cls, preset)
+        ob.queries += nq + nq2
+
+        class E(enc_cls, PresetEnc):
+            pass
+        E.preset = preset
+        for c, B in preset.items():
+            if c in honest and honest[c] >= B:
+                return ob.set(INCONCLUSIVE, f"discovered bound {B} on {c} contradicts the honest assignment")
+        e = E(system, drop=drops)
+    else:
+        lemmas = []
+        e = enc_cls(system)
     try:
         e.encode(False)
+        for v, x, c0 in lemmas:
+            if v in e.vars and x in e.vars:
+                if (honest.get(v) == 1) != (honest.get(x) == c0):
+                    return ob.set(INCONCLUSIVE, f"hint lemma {v} = [{x} = {c0}] contradicts the honest assignment")
+                e.lines.append(f"(assert (= {e.vars[v]} (ite (= {e.vars[x]} {c0}) 1 0)))")
         Iat = [e.v(c) for c in system.ins]
         Oat = [e.v(c) for c in system.outs]
         spec_smt = spec(e, Iat, Oat, system)
@@ -1591,8 +1811,12 @@ def c_decide(run, ob, family, op, params, ins, spec, k=10, timeout=60, enc_cls=c
     except NotImplementedError as ex:
         return ob.set(INCONCLUSIVE, f"untranslatable: {ex}")
     names = sorted(set(e.vars.values()))
+    # every product has a Boolean operand (written as an ite): the query is linear integer arithmetic, and
+    # both solvers are far quicker when told so
+    linear = all(min(e.bound(a_), e.bound(b_)) <= 2 for _, a_, b_ in e.prod_list)
+    text = (lambda extra_: e.text(extra_).replace("(set-logic ALL)", "(set-logic QF_LIA)", 1)) if linear else e.text
     pins = [f"(assert (= {n} {honest[c]}))" for c, n in e.vars.items() if c in honest]
-    r = solvers.solve(e.text(pins + ([f"(assert {spec_smt})"] if twin else [])), timeout=timeout)
+    r = solvers.solve(text(pins + ([f"(assert {spec_smt})"] if twin else [])), timeout=timeout)
     ob.queries += 1
     ob.solver_s += r.time_s
     if r.status != "sat":
@@ -1601,7 +1825,7 @@ def c_decide(run, ob, family, op, params, ins, spec, k=10, timeout=60, enc_cls=c
     extra = [f"(assert (not {spec_smt}))"]
     for rnd in range(6):
         atoms = names + [it[1] for it in e.order]
-        r = solvers.solve(e.text(extra), timeout=timeout, get_values=atoms)
+        r = solvers.solve(text(extra), timeout=timeout, get_values=atoms)
         ob.queries += 1
         ob.solver_s += r.time_s
         if r.status == "unsat":
@@ -1613,22 +1837,29 @@ def c_decide(run, ob, family, op, params, ins, spec, k=10, timeout=60, enc_cls=c
         cls_assign = {c: assign[n] for c, n in e.vars.items()}
         for c in system.used_classes():
             cls_assign.setdefault(c, honest.get(c, 0))
+        repair_hints(system, repairs, cls_assign)
         exact = e.exact_atoms(assign)
         bad = system.check_exact(cls_assign)
         wrong = [it for it in e.order if it[0] == "mul" and model.get(it[1]) is not None and model[it[1]] != exact[it[1]]]
         if not bad:
             pins = [f"(assert (= {n} {v}))" for n, v in exact.items()]
-            r2 = solvers.solve(e.text(pins + extra), timeout=timeout)
+            r2 = solvers.solve(text(pins + extra), timeout=timeout)
             ob.queries += 1
             if r2.status == "sat":
-                ov = cengine.overrides_from_model(system, e, model)
+                # every advice / instance cell of a class used by the system gets the model's (or repaired) value
+                ov = {}
+                for cell in set(system.honest) | set(system.uf.p):
+                    if cell[0] in "ai":
+                        c = system.cls(cell)
+                        if c in cls_assign and c not in system.const:
+                            ov[cell] = hex(cls_assign[c] % P)
                 res, err = c_replay(family, op, params, ins, k, ov)
                 iv = {c: cls_assign.get(system.cls(c), system.const.get(system.cls(c), 0)) for c in system.ins + system.outs}
                 ivs = f"in={[iv[c] for c in system.ins]} out={[iv[c] for c in system.outs]}"
                 if res and res.get("accepted"):
                     path = run.write_replay(ob, dict(kind="c19-forged-assignment", ax=cx, overrides=ov, instance={c: hex(v) for c, v in iv.items()},
                                                      note="real MockProver::verify() accepts this assignment although the (inputs, outputs) on the instance column violate the specification"))
-                    return ob.set(VIOLATION, f"{op} {cengine.pstr(params)}: the real MockProver accepts {ivs}, which violates the specification", solver=r.solver, replay=path)
+                    return ob.set(VIOLATION, f"{op} {label or cengine.pstr(params)}: the real MockProver accepts {ivs}, which violates the specification", solver=r.solver, replay=path)
                 return ob.set(INCONCLUSIVE, f"exact counterexample did not replay on MockProver: {res} {err}")
             if r2.status != "unsat":
                 return ob.set(INCONCLUSIVE, f"ground re-check: {r2.status}")
